@@ -140,7 +140,7 @@ def CarveSSem (env : CEnv) : CStmt → Bool
         | .ok ce => ce.ty.width == 32 || castOKSem { signed := false, width := 32, group := 1 } ce
         | .error _ => true)
   | .skip _ => true
-  | .exprstmt _ => true
+  | .exprstmt e => CarveESem env.assigned e
   | .ret _ => true
   | .vcall _ _ _ _ => true
 def CarveSsSem (env : CEnv) : List CStmt → Bool
@@ -195,10 +195,45 @@ end
 /-- the semantic certificate modulo bare immediate statements in front of an assignment to the same immediate -/
 def certifiedSemB (prog : List CStmt) : Bool := certifiedSem (dropBare prog)
 
-/-- which conjuncts of `certifiedSem` hold (diagnostics for the evidence): ctx ok, WFStmts, WFES, CarveProgSem, HybFreeSs, HSameProg -/
+mutual
+/-- contains a bare value statement `e;` somewhere (top level, `if`/`else` arms, loop bodies) -/
+def hasBareS : CStmt → Bool
+  | .exprstmt _ => true
+  | .ite _ t e => hasBare t || (match e with | some e => hasBare e | none => false)
+  | .for_ _ _ _ b => hasBare b
+  | _ => false
+def hasBare : List CStmt → Bool
+  | [] => false
+  | s :: ss => hasBareS s || hasBare ss
+end
+
+/-- The semantic certificate for behaviours with bare PURE value statements (`siV; EA = RsV + siV; …`, the "touch the
+    operand" statements most shipped behaviours start with): the conjuncts of `certifiedSem`, whose ingredients accept
+    such a statement anywhere (top level, arms, loop bodies) under these conditions —
+    `HybFreeS (.exprstmt e) = HybFree e` (no side effect inside the value), `WFStmt c (.exprstmt e) = true` with `e`
+    among `exprsOf` (so `WFES c e`: the value is statically well-formed), `CarveSSem env (.exprstmt e) =
+    CarveESem env.assigned e` (both lowerings compile the value alike), `HSameS env (.exprstmt e) = HSame env e`.
+    The value may still be undefined in C for some state (an out-of-range shift): then the C behaviour is undefined
+    there, which the hypothesis `ExecCs … σC'` of `Sem.certifiedSemP_correct` excludes — nothing is ignored.
+    (`certifiedSem` is the same function: it was false for every behaviour with an expression statement before.) -/
+def certifiedSemP (prog : List CStmt) : Bool :=
+  let c := ctxOf prog
+  c.ok && WFStmts c prog && (exprsOfList prog).all (WFES c) &&
+  CarveProgSem prog && HybFreeSs prog && HSameProg Cfg.asCode prog
+
+theorem certifiedSemP_eq (prog : List CStmt) : certifiedSemP prog = certifiedSem prog := rfl
+
+/-- which conjuncts of `certifiedSem` (= `certifiedSemP`) hold (diagnostics for the evidence): ctx ok, WFStmts, WFES,
+    CarveProgSem, HybFreeSs, HSameProg.  A bare pure value statement `e;` counts under WFES (`e` is among `exprsOf`),
+    CarveProgSem (`CarveESem e`), HybFreeSs (`HybFree e`), HSameProg (`HSame e`). -/
 def certifiedSemDetail (prog : List CStmt) : String :=
   let c := ctxOf prog
   let b := fun (x : Bool) => if x then "1" else "0"
   b c.ok ++ b (WFStmts c prog) ++ b ((exprsOfList prog).all (WFES c)) ++ b (CarveProgSem prog) ++ b (HybFreeSs prog) ++ b (HSameProg Cfg.asCode prog)
+
+/-- the diagnostics the driver reports: of the behaviour itself when its certificate holds, else of the behaviour
+    without the bare immediate reads in front of an assignment to the same immediate (`certifiedSemB`) -/
+def certDetail (prog : List CStmt) : String :=
+  if certifiedSem prog then certifiedSemDetail prog else certifiedSemDetail (dropBare prog)
 
 end Rzil
